@@ -45,11 +45,27 @@ theorem delete_nothing (ioErrors : Nat) (dryRun : Bool) (names : List Str) (tree
   · simp only [h, Bool.not_false, if_true]
     refine ⟨by split <;> rfl, fun _ => by split <;> rfl⟩
 
-/-- **Protected entries survive**: with the user's exclude rules, nothing that is listed and nothing
-the rules protect is removed, and without rules the protected walk is the plain one. -/
-theorem protected_never_removed (listed : Path → Bool) (protect : Path → Bool → Bool) (l : List Ent) :
+/-- **What the walk removes is never listed and never protected — as far as the removal *roots* go.** The full
+statement the property text suggests ("nothing the rules protect disappears") is **false of this code** (finding D38,
+see the witness below): a removal root is removed with its whole subtree (`RemoveAll`), whatever the rules say about
+entries inside it. Proved here: every *root* of a removal is unlisted and unprotected; without rules the protected walk
+is the plain one. -/
+theorem protected_roots_never_removed_partial (listed : Path → Bool) (protect : Path → Bool → Bool) (l : List Ent) :
     ∀ p ∈ delWalkP listed protect l, listed p = false ∧ ∃ e ∈ l, e.path = p ∧ protect p e.isDir = false :=
   delWalkP_sound listed protect l
+
+/-- **D38, kernel-checked witness**: a destination with the extraneous directory `o` holding `o/k`, rules that protect
+`k`: the walk removes `o` (hence `o/k` with it) although `k` is protected. The same tree on the implementation is the
+`protected-below-extraneous` fixture of the session suite (a known finding). -/
+theorem protected_entry_below_removed_root :
+    let o : Path := [[111]]
+    let k : Path := [[111], [107]]
+    let protect : Path → Bool → Bool := fun p _ => p.getLast? == some [107]
+    o ∈ delWalkP (fun _ => false) protect [⟨o, true⟩, ⟨k, false⟩] ∧ under o k = true ∧ protect k false = true := by
+  intro o k protect
+  refine ⟨?_, by decide, by decide⟩
+  rw [delWalkP]
+  simp [protect, o]
 
 theorem no_rules_plain_walk (listed : Path → Bool) (l : List Ent) :
     delWalkP listed (fun _ _ => false) l = delWalk listed l := delWalkP_noRules listed l
